@@ -13,7 +13,7 @@ The generated / hand-written codecs of the protocol's own types (MetaObject, Obj
 ServiceInfo, capability map) are compared too, as statistics only (C03 does not speak of them).
 """
 from vlib import Infra
-from c02 import gen_vectors, self_test, absorb
+from c02 import gen_vectors, self_test, absorb, scaled_stage
 
 
 def run(ctx):
@@ -25,6 +25,7 @@ def run(ctx):
     if res["evaluations"] < 4 * (n["V"] - 10):
         raise Infra("harness replayed %d evaluations for %d vectors" % (res["evaluations"], n["V"]))
     absorb(ctx, res)
+    scaled_stage(ctx, "c03")
     ctx.extra.update({"vectors_exported": n["V"], "exhaustive": True,
                       "explanation": "every (type, value) of the bounded universe against the reflection encoder, "
                                      "the signature-driven reader and the reflection decoder, byte for byte"})
